@@ -1,17 +1,17 @@
-import Libp2pModel.Proofs.C39_Disjoint
+import Libp2pModel.Proofs.C39_DProg
+import Libp2pModel.Proofs.C39_DMerge
 /-!
-# C39 — `ClosestDisjointPeersIter` (partial)
+# C39 — `ClosestDisjointPeersIter`
 
-Proved, for every operation sequence: every path keeps the plain iterator's invariant
-(`num_waiting` = number of `Waiting` peers, per-path in-flight bound, no panic), hence the total
-number of in-flight requests is at most `parallelism · max(num_results, parallelism)`; a peer is
-handed out by `next` at most once over all paths; the merged result only contains peers that
-some path reports as `Succeeded`.
-
-Not proved here (see `full_statement`): termination measure for the disjoint iterator, the
-"finished-closed" clause across paths (it holds per path by `C39.finished_closed`), sortedness of
-the merged result.  Note that `into_result` of the disjoint iterator is *not* limited to
-`num_results` peers (documented in the source: up to `num_results` per path).
+For every operation sequence (any interleaving of `next(now)`, `on_success`, `on_failure`,
+`finish_paths`, `finish`): every path keeps the plain iterator's invariant, so the total number of
+in-flight requests is at most `parallelism · max(num_results, parallelism)` and nothing panics; a
+peer is handed out at most once over all paths; the sum of the per-path potentials is a decreasing
+measure (at most `parallelism·(3n+1)` effective calls, at most `n` requests); `Finished` means
+every path is finished, each path that finished by itself is closed, and a finished iterator is
+inert; the merged result (`ResultIter`) is strictly increasing in distance — hence duplicate-free —
+and contains only peers that are `Succeeded` in some path.  Note that `into_result` of the disjoint
+iterator is *not* limited to `num_results` peers (documented in the source: `num_results` per path).
 -/
 namespace C39.Disjoint
 open C39 (Out Cfg Inv CfgOk)
@@ -22,59 +22,6 @@ def reach (cfg : Cfg) (k : Nat) (known : List Nat) (ops : List Op) : DIter :=
 theorem dinv_reach {cfg : Cfg} (hc : CfgOk cfg) (k : Nat) (known : List Nat) (ops : List Op) :
     DInv cfg (reach cfg k known ops) :=
   Machine.invariant_of_step step (DInv cfg) (fun d o h => (step_ok h o).1) ops _ (DInv.init hc k known)
-
-theorem sum_le_of_forall (l : List Nat) (b : Nat) (h : ∀ x ∈ l, x ≤ b) : l.sum ≤ l.length * b := by
-  induction l with
-  | nil => simp
-  | cons a t ih =>
-    have h1 := h a List.mem_cons_self
-    have h2 := ih (fun x hx => h x (List.mem_cons_of_mem _ hx))
-    simp only [List.sum_cons, List.length_cons, Nat.succ_mul]
-    omega
-
-theorem length_step (d : DIter) (op : Op) : (step d op).1.iters.length = d.iters.length := by
-  cases op with
-  | next now =>
-    simp only [step, next]
-    have : ∀ (r : Nat) (d : DIter) (acc : Acc), (outer now r d acc).1.iters.length = d.iters.length := by
-      intro r
-      induction r with
-      | zero => intro d acc; rfl
-      | succ r ih =>
-        intro d acc
-        simp only [outer]
-        split
-        · rfl
-        · split
-          · rw [ih]; simp
-          · simp
-          · simp
-    exact this _ d .none
-  | success p closer =>
-    simp only [step, onSuccess]
-    (repeat' split) <;> simp [length_mapOthers]
-  | failure p =>
-    simp only [step, onFailure]
-    (repeat' split) <;> simp [length_mapOthers]
-  | finishPaths ps =>
-    simp only [step, finishPaths]
-    have : ∀ (ps : List Nat) (d : DIter), (ps.foldl (fun (d : DIter) p =>
-        match cfind d.contacted p with
-        | some (by_, _) =>
-          match d.iters[by_]? with
-          | some it => { d with iters := d.iters.set by_ (C39.finish it) }
-          | none => d
-        | none => d) d).iters.length = d.iters.length := by
-      intro ps
-      induction ps with
-      | nil => intro d; rfl
-      | cons q t ih =>
-        intro d
-        simp only [List.foldl_cons]
-        rw [ih]
-        (repeat' split) <;> simp
-    exact this ps d
-  | finish => simp [step, finish]
 
 /-- **Per-path invariant and in-flight bound (partial)**: after any operation sequence every path
 satisfies the plain iterator's invariant — in particular its `num_waiting` is its number of
@@ -270,70 +217,6 @@ theorem each_peer_once (ops : List Op) : ∀ d : DIter,
     | unit => simpa [issuedOf] using ⟨ihn, hnone⟩
     | panic => simpa [issuedOf] using ⟨ihn, hnone⟩
 
-/-- every list of `ls'` is contained in the list of `ls` at the same index -/
-def Sub (ls' ls : List (List Nat)) : Prop := ∀ i x, x ∈ ls'.getD i [] → x ∈ ls.getD i []
-
-theorem Sub.refl (ls : List (List Nat)) : Sub ls ls := fun _ _ h => h
-theorem Sub.trans {a b c : List (List Nat)} (h1 : Sub a b) (h2 : Sub b c) : Sub a c :=
-  fun i x h => h2 i x (h1 i x h)
-
-theorem sub_set (ls : List (List Nat)) (j : Nat) (l : List Nat) (h : ∀ x ∈ l, x ∈ ls.getD j []) :
-    Sub (ls.set j l) ls := by
-  intro i x hx
-  simp only [List.getD_eq_getElem?_getD, List.getElem?_set] at hx ⊢
-  by_cases hji : j = i
-  · subst hji
-    by_cases hlt : j < ls.length
-    · simp [hlt] at hx
-      have := h x hx
-      simpa [List.getD_eq_getElem?_getD] using this
-    · simp [hlt] at hx
-  · simp [hji] at hx; exact hx
-
-theorem pickFold_sub : ∀ (n : Nat) (ls : List (List Nat)) (best : Option Nat) (j : Nat),
-    Sub (pickFold ls best j n).1 ls := by
-  intro n
-  induction n with
-  | zero => intro ls best j; exact Sub.refl ls
-  | succ n ih =>
-    intro ls best j
-    simp only [pickFold]
-    split
-    · exact ih _ _ _
-    · split
-      · split
-        · refine Sub.trans (ih _ _ _) (sub_set ls j _ ?_)
-          intro x hx
-          exact List.mem_of_mem_tail hx
-        · split
-          · exact ih _ _ _
-          · exact ih _ _ _
-      · exact ih _ _ _
-      · exact ih _ _ _
-      · exact ih _ _ _
-
-theorem merge_sub : ∀ (fuel : Nat) (ls : List (List Nat)) (x : Nat), x ∈ merge fuel ls →
-    ∃ i, x ∈ ls.getD i [] := by
-  intro fuel
-  induction fuel with
-  | zero => intro ls x h; simp [merge] at h
-  | succ fuel ih =>
-    intro ls x h
-    simp only [merge] at h
-    have hs := pickFold_sub ls.length ls none 0
-    split at h
-    · simp at h
-    · rename_i a ha
-      split at h
-      · simp at h
-      · rename_i x0 rest hl
-        rcases List.mem_cons.1 h with rfl | h
-        · exact ⟨a, hs a x (by rw [hl]; exact List.mem_cons_self)⟩
-        · obtain ⟨i, hi⟩ := ih _ x h
-          have := sub_set (pickFold ls none 0 ls.length).1 a rest (by
-            intro y hy; rw [hl]; exact List.mem_cons_of_mem _ hy)
-          exact ⟨i, hs i x (this i x hi)⟩
-
 /-- **Result ⊆ responders (per path)**: every peer of the merged result is in the result of some
 path -/
 theorem result_sub (d : DIter) (x : Nat) (h : x ∈ result d) : ∃ it ∈ d.iters, x ∈ C39.result it := by
@@ -354,27 +237,162 @@ theorem result_responders_partial {cfg : Cfg} (hc : CfgOk cfg) (k : Nat) (known 
   have hinv := ((dinv_reach hc k known ops).paths it hit).1
   exact ⟨it, hit, (C39.result_props hinv.sorted).2.2 p hr⟩
 
-/-- the full property for the disjoint iterator, of which the theorems above prove the
-in-flight, each-peer-once and no-panic parts (result clause: see `C39.result_sound` per path) -/
+/-! ## the merged result -/
+
+theorem allSorted_results {cfg : Cfg} {d : DIter} (h : DInv cfg d) : AllSorted (d.iters.map C39.result) := by
+  intro i
+  simp only [List.getD_eq_getElem?_getD, List.getElem?_map]
+  cases hg : d.iters[i]? with
+  | none => simp
+  | some it =>
+    simp
+    exact (C39.result_props (h.paths it (List.mem_of_getElem? hg)).1.sorted).1
+
+/-- **The merged result is sorted by distance and duplicate-free**, after any operation sequence. -/
+theorem result_sorted_dedup {cfg : Cfg} (hc : CfgOk cfg) (k : Nat) (known : List Nat) (ops : List Op) :
+    (result (reach cfg k known ops)).Pairwise (· < ·) ∧ (result (reach cfg k known ops)).Nodup := by
+  have hs : (result (reach cfg k known ops)).Pairwise (· < ·) :=
+    merge_sorted _ _ (allSorted_results (dinv_reach hc k known ops))
+  exact ⟨hs, hs.imp (fun h => Nat.ne_of_lt h)⟩
+
+/-! ## finishing -/
+
+/-- **`Finished` means finished**: if `next` answers `Finished` after any operation sequence, every
+path is finished (`is_finished()`), and from then on the iterator is inert: `next` keeps answering
+`Finished`, late `on_success`/`on_failure` are ignored (`false`), no call changes the state. -/
+theorem finished_closed_inert {cfg : Cfg} (hc : CfgOk cfg) (k : Nat) (known : List Nat) (ops : List Op) :
+    (∀ now, (next (reach cfg k known ops) now).2 = .finished →
+      isFinished (next (reach cfg k known ops) now).1 = true) ∧
+    (isFinished (reach cfg k known ops) = true → ∀ op,
+      (step (reach cfg k known ops) op).1 = reach cfg k known ops ∧
+      (step (reach cfg k known ops) op).2 = (match op with
+        | .next _ => .finished
+        | .success _ _ => .bool false
+        | .failure _ => .bool false
+        | .finishPaths _ => .bool true
+        | .finish => .unit)) :=
+  ⟨fun now hout => next_finished_all (dinv_reach hc k known ops) now hout,
+   fun hfin op => finished_inert (dinv_reach hc k known ops) hfin op⟩
+
+/-- **Finished-closed across paths**: across any call of `next` (after any operation sequence) a
+path that was finished is left untouched, and a path that becomes finished — by itself, inside
+`next` — is closed: none of its known peers closer than its farthest returned peer (none at all if
+it returns fewer than `num_results`) is `NotContacted` or `Waiting`. -/
+theorem paths_closed {cfg : Cfg} (hc : CfgOk cfg) (k : Nat) (known : List Nat) (ops : List Op) (now : Nat)
+    (i : Nat) (it : C39.Iter) (hi : (reach cfg k known ops).iters[i]? = some it) :
+    ∃ it', (next (reach cfg k known ops) now).1.iters[i]? = some it' ∧
+      (it.state = .finished → it' = it) ∧
+      (it.state ≠ .finished → it'.state = .finished → C39.Closed it') :=
+  next_paths (dinv_reach hc k known ops) now i it hi
+
+/-! ## termination -/
+
+theorem issued_lt {cfg : Cfg} {n : Nat} (ops : List Op) : ∀ (d : DIter), DInv cfg d → BoundedD n d →
+    (∀ o ∈ ops, opBoundedD n o) → ∀ q ∈ issuedList d ops, q < n := by
+  induction ops with
+  | nil => intro d _ _ _ q hq; simp [issuedList] at hq
+  | cons o os ih =>
+    intro d h hb hops q hq
+    obtain ⟨b', _, hlt⟩ := measure_step_d h hb o (hops o List.mem_cons_self)
+    simp only [issuedList, List.mem_append] at hq
+    rcases hq with hq | hq
+    · cases hout : (step d o).2 with
+      | waiting p =>
+        cases p with
+        | none => rw [hout] at hq; simp [issuedOf] at hq
+        | some p =>
+          rw [hout] at hq; simp [issuedOf] at hq
+          rw [hq]; exact hlt p hout
+      | atCapacity => rw [hout] at hq; simp [issuedOf] at hq
+      | finished => rw [hout] at hq; simp [issuedOf] at hq
+      | bool b => rw [hout] at hq; simp [issuedOf] at hq
+      | unit => rw [hout] at hq; simp [issuedOf] at hq
+      | panic => rw [hout] at hq; simp [issuedOf] at hq
+    · exact ih _ (step_ok h o).1 b' (fun o' ho' => hops o' (List.mem_cons_of_mem _ ho')) q hq
+
+/-- **Termination over a finite universe** `{0,…,n-1}`, for any pattern of responses, failures,
+timeouts and `finish_paths` calls: along any operation sequence at most `n` peers are handed out
+and at most `parallelism·(3n+1)` calls are effective (hand out a peer, accept a response or a
+failure); every other call leaves the potential `Phi` (the sum of the per-path potentials)
+unchanged or smaller. -/
+theorem terminates {cfg : Cfg} (hc : CfgOk cfg) (k n : Nat) (known : List Nat) (ops : List Op)
+    (hk : ∀ q ∈ known, q < n) (hops : ∀ o ∈ ops, opBoundedD n o) :
+    (issuedList (init cfg k known) ops).length ≤ n ∧
+    effCountD (init cfg k known) ops ≤ cfg.parallelism * (3 * n + 1) ∧
+    effCountD (init cfg k known) ops + Phi n (reach cfg k known ops) ≤ cfg.parallelism * (3 * n + 1) := by
+  obtain ⟨hb, hphi⟩ := init_measure_d cfg k n known hk
+  obtain ⟨hrun, _⟩ := measure_run_d (cfg := cfg) (n := n) ops _ (DInv.init hc k known) hb hops
+  have hnd := (each_peer_once ops (init cfg k known)).1
+  have hlt := issued_lt (cfg := cfg) (n := n) ops _ (DInv.init hc k known) hb hops
+  refine ⟨?_, by omega, by
+    show effCountD _ _ + Phi n (Machine.exec step (init cfg k known) ops) ≤ _
+    omega⟩
+  have := List.Nodup.length_le_of_subset (l₂ := List.range n) hnd (by
+    intro q hq; exact List.mem_range.2 (hlt q hq))
+  simpa using this
+
+/-- **Progress**: after any operation sequence, if every contacted peer has been answered or has
+failed and no unfinished path is waiting for anything, `next` hands out a new peer or finishes. -/
+theorem progress {cfg : Cfg} (hc : CfgOk cfg) (k : Nat) (known : List Nat) (ops : List Op) (now : Nat)
+    (hz : ∀ it ∈ (reach cfg k known ops).iters, it.state = .finished ∨ it.numWaiting = 0)
+    (hres : Resolved (reach cfg k known ops).contacted) :
+    (next (reach cfg k known ops) now).2 = .finished ∨
+      ∃ p, (next (reach cfg k known ops) now).2 = .waiting (some p) :=
+  next_progress_d (dinv_reach hc k known ops) now hz hres
+
+/-- the property for the disjoint iterator, assembled -/
 def full_statement : Prop :=
   ∀ (cfg : Cfg) (_ : CfgOk cfg) (k n : Nat) (known : List Nat) (ops : List Op),
-    (∀ q ∈ known, q < n) →
+    (∀ q ∈ known, q < n) → (∀ o ∈ ops, opBoundedD n o) →
     -- bounded
     ((reach cfg k known ops).iters.map (·.numWaiting)).sum ≤ cfg.parallelism * max cfg.numResults cfg.parallelism ∧
-    -- each peer once, hence at most `n` requests
+    -- each peer contacted at most once over all paths, hence at most `n` requests; bounded total work
     (issuedList (init cfg k known) ops).Nodup ∧ (issuedList (init cfg k known) ops).length ≤ n ∧
-    -- result: responders only, strictly increasing distance
-    (result (reach cfg k known ops)).Pairwise (· < ·) ∧
-    ∀ p ∈ result (reach cfg k known ops), ∃ it ∈ (reach cfg k known ops).iters,
-      C39.find it.closest p = some .succeeded
+    effCountD (init cfg k known) ops ≤ cfg.parallelism * (3 * n + 1) ∧
+    -- result: strictly increasing distance, no duplicates, only peers that some path saw succeed
+    (result (reach cfg k known ops)).Pairwise (· < ·) ∧ (result (reach cfg k known ops)).Nodup ∧
+    (∀ p ∈ result (reach cfg k known ops), ∃ it ∈ (reach cfg k known ops).iters,
+      C39.find it.closest p = some .succeeded) ∧
+    -- `Finished` is final
+    (∀ now, (next (reach cfg k known ops) now).2 = .finished →
+      isFinished (next (reach cfg k known ops) now).1 = true) ∧
+    (isFinished (reach cfg k known ops) = true → ∀ op, (step (reach cfg k known ops) op).1 = reach cfg k known ops)
 
+theorem full : full_statement := by
+  intro cfg hc k n known ops hk hops
+  obtain ⟨t1, t2, _⟩ := terminates hc k n known ops hk hops
+  obtain ⟨r1, r2⟩ := result_sorted_dedup hc k known ops
+  obtain ⟨f1, f2⟩ := finished_closed_inert hc k known ops
+  exact ⟨(inflight_bound_partial hc k known ops).2.1, (each_peer_once ops _).1, t1, t2, r1, r2,
+    fun p hp => result_responders_partial hc k known ops p hp, f1, fun hfin op => (f2 hfin op).1⟩
+
+-- three paths sharing peer 1: it is handed out once, delivered to all paths, and appears once in
+-- the merged result
 example : (Machine.run step (init ⟨2, 2, 10⟩ 20 [3, 1])
     [.next 0, .next 0, .next 0, .success 1 [0], .next 0, .success 3 [], .success 0 [], .next 1]).2 =
     [.waiting (some 1), .waiting (some 3), .atCapacity, .bool true, .waiting (some 0), .bool true,
      .bool true, .finished] := by decide
+
+example : (Machine.run step (init ⟨3, 2, 10⟩ 20 [1, 4, 6])
+    [.next 0, .next 0, .next 0, .success 1 [2], .success 4 [], .success 6 [], .next 0, .success 2 [],
+     .next 0]).2 =
+    [.waiting (some 1), .waiting (some 4), .waiting (some 6), .bool true, .bool true, .bool true,
+     .waiting (some 2), .bool true, .finished] := by decide
+example : result (reach ⟨3, 2, 10⟩ 20 [1, 4, 6]
+    [.next 0, .next 0, .next 0, .success 1 [2], .success 4 [], .success 6 [], .next 0, .success 2 [],
+     .next 0]) = [1, 2, 4] := by decide
+example : isFinished (reach ⟨3, 2, 10⟩ 20 [1, 4, 6]
+    [.next 0, .next 0, .next 0, .success 1 [2], .success 4 [], .success 6 [], .next 0, .success 2 [],
+     .next 0]) = true := by decide
 
 end C39.Disjoint
 
 #print axioms C39.Disjoint.inflight_bound_partial
 #print axioms C39.Disjoint.each_peer_once
 #print axioms C39.Disjoint.result_responders_partial
+#print axioms C39.Disjoint.result_sorted_dedup
+#print axioms C39.Disjoint.finished_closed_inert
+#print axioms C39.Disjoint.paths_closed
+#print axioms C39.Disjoint.terminates
+#print axioms C39.Disjoint.progress
+#print axioms C39.Disjoint.full
